@@ -477,6 +477,21 @@ impl<'a, T: Evaluate> PiecewiseEvaluator<'a, T> {
     }
 }
 
+/// Verification hook (feature `verif-hooks`): read-only view of the
+/// evaluator's hidden state, so reachable states can be hashed and explored.
+#[cfg(feature = "verif-hooks")]
+impl<'a, T> PiecewiseEvaluator<'a, T> {
+    /// Returns (segments skipped by the cursor, remaining tail length,
+    /// bits of the last argument).
+    pub fn verif_state(&self) -> (usize, usize, u64) {
+        (
+            self.all_segments_front.len().saturating_sub(self.tail.len()),
+            self.tail.len(),
+            self.last_evaluation.to_bits(),
+        )
+    }
+}
+
 impl<T: Evaluate> Evaluate for Piecewise<T> {
     #[inline]
     fn evaluate(&self, x: f64) -> f64 {
